@@ -1,3 +1,4 @@
+import re
 """Rules shared by several properties."""
 from qlib import astq
 from qlib.report import Rule
@@ -194,4 +195,147 @@ def rule_stream_past(ctx, m, files=("Digit.hpp",)):
             past = bool(o.detail.get("past"))
             r.ob(f.sig, o.construct, not past, ("index is proven >= Length() on a path: " + o.why) if past else "no path proves the index at or beyond Length() (in-range not decided)", o.loc,
                  nontrivial=past)
+    return r
+
+
+def rule_out_params(ctx, m, files):
+    """OUT-def: an arm of a kind dispatch (if (type == K) / isK() / switch (Type())) that assigns a reference-to-pointer
+    out-parameter on some path assigns it on every path through that arm.  A caller that keeps the slot across calls -- the loop
+    item of the renderer -- would otherwise see the pointer stored by the previous call (possibly into a destroyed working copy).
+    Structural definite assignment: a statement list assigns if one of its statements does before any return; an if assigns if
+    both branches do; handing the reference to a callee that assigns it counts."""
+    r = Rule("OUT-def", "a kind arm that assigns a pointer out-parameter assigns it on every path through the arm", floor=3)
+    for f in m.functions:
+        if f.inst or not f.cfg or not any(f.file.endswith("/" + x) for x in files):
+            continue
+        outs = [p for p in f.params if p.get("ref") and not p.get("rref") and p["t"].replace(" ", "").endswith("*&")]
+        if not outs:
+            continue
+
+        def mentions_assign(root, p):
+            for x in f.walk(root):
+                n = f.nodes[x]
+                if n["k"] == "BinaryOperator" and n["op"] == "=" and f.nodes[f.strip(n["ch"][0])].get("d") == p["d"]:
+                    return True
+                if n["k"] in ("CallExpr", "CXXMemberCallExpr") and any(f.nodes[f.strip(a)].get("d") == p["d"] and f.nodes[f.strip(a)]["k"] == "DeclRefExpr" for a in f.call_args(x)):
+                    return True
+            return False
+
+        def da(st, p):
+            n = f.nodes[st]
+            k = n["k"]
+            if k == "CompoundStmt":
+                for c in n.get("ch", []):
+                    if f.nodes[c]["k"] == "ReturnStmt":
+                        return mentions_assign(c, p)
+                    if da(c, p):
+                        return True
+                return False
+            if k == "IfStmt":
+                return n["else"] >= 0 and da(n["then"], p) and da(n["else"], p)
+            if k in ("WhileStmt", "ForStmt", "DoStmt", "SwitchStmt"):
+                return False if k != "DoStmt" else da(n["body"], p)
+            return mentions_assign(st, p)
+
+        def is_kind_test(cond):
+            t = f.text(cond).replace(" ", "")
+            return bool(re.search(r"(type|Type\(\))(==|!=)|\bis[A-Z]\w*\(\)|\bIs[A-Z]\w*\(\)", t))
+        for p in outs:
+            # the out-parameter whose null-ness tells the caller "nothing here": the function stores nullptr in it somewhere
+            signals = False
+            for x in astq.nodes_of(f, "BinaryOperator"):
+                n = f.nodes[x]
+                if n["op"] == "=" and f.nodes[f.strip(n["ch"][0])].get("d") == p["d"] and \
+                        any(f.nodes[y]["k"] in ("CXXNullPtrLiteralExpr", "GNUNullExpr") for y in f.walk(n["ch"][1])):
+                    signals = True
+            forwarded = any(f.nodes[f.strip(a)].get("d") == p["d"] for c in astq.calls(f) for a in f.call_args(c))
+            if not signals:
+                continue
+            arms = []
+            for i_ in astq.nodes_of(f, "IfStmt"):
+                n = f.nodes[i_]
+                if is_kind_test(n["cond"]):
+                    arms.append((n["then"], f.text(n["cond"])[:40]))
+                    if n["else"] >= 0 and f.nodes[n["else"]]["k"] != "IfStmt":
+                        arms.append((n["else"], "else of " + f.text(n["cond"])[:34]))
+            for sw in astq.nodes_of(f, "SwitchStmt"):
+                if "Type" in f.text(f.nodes[sw]["cond"]) or "type" in f.text(f.nodes[sw]["cond"]):
+                    for labels, stmts in astq.switch_arms(f, sw):
+                        for s_ in stmts:
+                            arms.append((s_, "case " + ",".join((l[0] or "").split("::")[-1] for l in labels)))
+            for (arm, label) in arms:
+                if not mentions_assign(arm, p):
+                    continue
+                ctx.note_fn(f)
+                ok = da(arm, p)
+                r.ob(f.sig, "`%s` in the arm `%s`" % (p["n"], label), ok, "assigned on every path through the arm" if ok else
+                     "some path through this arm leaves `%s` as the previous call left it (for the renderer's loop slot: a pointer into data "
+                     "that may be gone)" % p["n"], f.loc(arm))
+    return r
+
+
+NULL_FIRST_EXCEPTIONS = {
+    ("Qentem::TemplateCore::parse", "tag_bit"): "the parent level's storage received the opening tag just before it was pushed on the parent stack, so Last() exists",
+    ("Qentem::Value::Compress", "src_val"): "reached only with size != 0, which was counted over the same array",
+}
+
+
+def rule_null_first(ctx, m, files):
+    """NULL-first: First() / Last() / Storage() of another container is null when that container is empty (or never allocated).
+    A local pointer initialised from such a call is dereferenced (->, *, [i]) only where a dominating branch excludes null:
+    a test of the pointer against nullptr, a comparison of the pointer with another pointer (the end of the same range: for
+    an empty container both are null and the comparison fails), or a non-emptiness / size test of that container.  Sites that
+    rest on a data-structure invariant are listed with their reason (NULL_FIRST_EXCEPTIONS)."""
+    from qlib import dataflow
+    r = Rule("NULL-first", "a pointer taken from First()/Last()/Storage() of another container is dereferenced only where null is excluded", floor=40)
+    SRC = {"First", "Last", "Storage"}
+    for f in m.functions:
+        if f.inst or not f.cfg or not any(f.file.endswith("/" + x) for x in files):
+            continue
+        srcs = {}
+        for st_ in astq.nodes_of(f, "DeclStmt"):
+            for d in f.nodes[st_]["decls"]:
+                if d.get("tk") == "ptr" and d.get("init", -1) >= 0 and "d" in d:
+                    i0 = f.strip_casts(d["init"])
+                    n0 = f.nodes[i0]
+                    if n0["k"] in ("CallExpr", "CXXMemberCallExpr") and f.call_simple_name(i0) in SRC and not f.call_args(i0) and f.call_receiver(i0) is not None:
+                        srcs[d["d"]] = (d["n"], f.text(f.call_receiver(i0)))
+        if not srcs:
+            continue
+        par = f.parents()
+        conds = [b.get("cond") for b in f.cfg["blocks"] if b.get("cond") is not None]
+        for i in f.walk():
+            n = f.nodes[i]
+            if n["k"] != "DeclRefExpr" or n.get("d") not in srcs:
+                continue
+            p = par.get(i)
+            while p is not None and f.nodes[p]["k"] in ("ImplicitCastExpr", "ParenExpr"):
+                p = par.get(p)
+            pn = f.nodes[p] if p is not None else {}
+            deref = (pn.get("k") in ("MemberExpr", "CXXDependentScopeMemberExpr") and pn.get("arrow")) or \
+                (pn.get("k") == "UnaryOperator" and pn.get("op") == "*") or \
+                (pn.get("k") == "ArraySubscriptExpr" and f.strip(pn["ch"][0]) == f.strip(i))
+            if not deref:
+                continue
+            ctx.note_fn(f)
+            name, cont = srcs[n["d"]]
+            how = None
+            for c in conds:
+                t = f.text(c).replace(" ", "")
+                if "%s!=nullptr" % name in t and dataflow.dominated_by_branch(f, i, c, True):
+                    how = "dominated by `%s != nullptr`" % name
+                elif "%s==nullptr" % name in t and dataflow.dominated_by_branch(f, i, c, False):
+                    how = "dominated by the false edge of `%s == nullptr`" % name
+                elif re.search(r"(?<![\w.>])%s(<|!=|<=)" % re.escape(name), t) and "nullptr" not in t and dataflow.dominated_by_branch(f, i, c, True):
+                    how = "dominated by the range test `%s`" % f.text(c)[:40]
+                elif (cont + ".IsNotEmpty()" in t or re.search(re.escape(cont) + r"\.(Size|Length)\(\)(!=0|>)", t)) and dataflow.dominated_by_branch(f, i, c, True):
+                    how = "dominated by a non-emptiness test of `%s`" % cont
+                if how:
+                    break
+            exc = NULL_FIRST_EXCEPTIONS.get((f.q, name))
+            if how is None and exc:
+                r.ob(f.q, "%s at %s" % (f.text(par.get(p, p))[:40], f.loc(i)), True, "rests on an invariant: " + exc, f.loc(i), nontrivial=False)
+                continue
+            r.ob(f.q, f.text(par.get(p, p))[:50], how is not None, how or ("`%s` comes from %s.%s and is null when that container is empty; nothing on the way here excludes it" % (
+                name, cont, "First()/Last()/Storage()")), f.loc(i))
     return r
